@@ -423,7 +423,7 @@ func TestC04(t *testing.T) {
 	}
 	maxLen := pickTier(25, 40)
 	ctlOpen := knownOpen("C04", "echoed-control")
-	c04Sub.rapidCheck(t, pickTier(8000, 25000), func(rt *rapid.T) hCase {
+	c04Sub.rapidCheck(t, pickTier(8000, 60000), func(rt *rapid.T) hCase {
 		c := genHistory(rt, maxLen, !ctlOpen)
 		c.Discipline = genDiscipline(rt)
 		c.CutSeed = rapid.IntRange(0, 1<<20).Draw(rt, "cutseed")
@@ -433,7 +433,7 @@ func TestC04(t *testing.T) {
 		return
 	}
 	// control octets in command lines (exercises the D18 matcher when open)
-	c04Ctl.rapidCheck(t, pickTier(600, 5000), func(rt *rapid.T) hCase {
+	c04Ctl.rapidCheck(t, pickTier(600, 12000), func(rt *rapid.T) hCase {
 		c := genHistory(rt, 8, true)
 		for i := 0; i < 3; i++ {
 			pos := rapid.IntRange(0, len(c.Cmds)).Draw(rt, "pos")
@@ -449,7 +449,7 @@ func TestC04(t *testing.T) {
 	if t.Failed() {
 		return
 	}
-	c04Sched.rapidCheck(t, pickTier(800, 6000), func(rt *rapid.T) c04SchedCase {
+	c04Sched.rapidCheck(t, pickTier(800, 15000), func(rt *rapid.T) c04SchedCase {
 		c := c04SchedCase{LMTP: rapid.Bool().Draw(rt, "lmtp")}
 		n := rapid.IntRange(2, 3).Draw(rt, "ntxn")
 		for k := 0; k < n; k++ {
